@@ -6,7 +6,7 @@
    [global_projection] shows that every history of TrapSet API calls is such a
    history for each condition in play. *)
 From Yv Require Import Common.Base C11.Model C11.Spec C11.Proofs C11.ProofsB C11.ProofsC
-  C11.ProofsD C11.ProofsE C11.ScriptModel C11.ScriptSpec C11.ScriptProofs C11.Examples.
+  C11.ProofsD C11.ProofsE C11.ProofsF C11.ScriptModel C11.ScriptSpec C11.ScriptProofs C11.Examples.
 
 (* every history of API operations acts on each condition as a per-condition history *)
 Theorem global_projection : forall univ gops,
@@ -152,10 +152,19 @@ Theorem pending_cleared_only_by : forall c o st,
                          /\ is_command (t_action (e_cur e)) = true).
 Proof. exact pending_cleared_thm. Qed.
 
-(* the model refines the reference state machine of Spec.v and passes every
+(* The model refines the reference state machine of Spec.v and passes every
    clause of the oracle on every history: the run-time oracle never demands
-   more than the theorems give *)
-Theorem oracle_sound : forall univ gops,
+   more than the theorems give - for the lenient reading of "exactly once"
+   ([strict = false]: when the trap of a signal is replaced by another command
+   while a delivery of it is caught but not yet run, the outcome is left open).
+
+   Full statement (the oracle as evaluated at run time, [strict = true]):
+     forall univ gops, univ_ok univ = true ->
+       Forall (fun o => gop_ok (map fst univ) o = true) gops ->
+       oracle_hist true (spec_inits univ) (obs_inits univ)
+                   (model_trace (ginit univ) gops) = None
+   is FALSE of the faithful model: see oracle_sound_refuted. *)
+Theorem oracle_sound_partial : forall univ gops,
   univ_ok univ = true ->
   Forall (fun o => gop_ok (map fst univ) o = true) gops ->
   oracle_hist false (spec_inits univ) (obs_inits univ) (model_trace (ginit univ) gops) = None.
@@ -165,6 +174,34 @@ Example oracle_sound_nonvacuous :
   univ_ok ex_univ = true /\
   Forall (fun o => gop_ok (map fst ex_univ) o = true) ex_gops.
 Proof. exact (conj ex_univ_ok ex_gops_ok). Qed.
+
+(* trap set, signal caught, trap replaced by another command, take: the model
+   (as TrapSet::set_action, which resets the pending flag) hands out nothing:
+   clause 9 of the strict oracle fails, the lenient one accepts *)
+Theorem oracle_sound_refuted : exists univ gops,
+  univ_ok univ = true /\
+  Forall (fun o => gop_ok (map fst univ) o = true) gops /\
+  oracle_hist true (spec_inits univ) (obs_inits univ) (model_trace (ginit univ) gops) = Some 9%N /\
+  oracle_hist false (spec_inits univ) (obs_inits univ) (model_trace (ginit univ) gops) = None.
+Proof. exists refute_univ, refute_gops. exact refute_trapset. Qed.
+
+(* The strict oracle (as evaluated at run time) accepts every history of the
+   model that is outside the class of the known finding C11-retrap-pending: no
+   step gives a new command to a condition that has a command and whose caught
+   flag is set. *)
+Theorem oracle_sound_outside_known_finding : forall univ gops,
+  univ_ok univ = true ->
+  Forall (fun o => gop_ok (map fst univ) o = true) gops ->
+  retrap_class_free (ginit univ) gops = true ->
+  oracle_hist true (spec_inits univ) (obs_inits univ) (model_trace (ginit univ) gops) = None.
+Proof. exact oracle_strict_thm. Qed.
+
+Example known_finding_class_nonvacuous :
+  retrap_class_free (ginit ex_univ) ex_gops = true /\
+  retrap_class_free (ginit refute_univ) refute_gops = false /\
+  trace_retrap_free ex_tbl ex_trace = true /\
+  trace_retrap_free refute_tbl refute_trace = false.
+Proof. exact ex_class. Qed.
 
 (* Second half of the property, on the model of trap execution around commands
    (ScriptModel.v): for every table of trap actions and every script of the
@@ -177,11 +214,36 @@ Proof. exact (conj ex_univ_ok ex_gops_ok). Qed.
    action deliveries are deferred; the action runs to its end; $? is handed to
    the action and restored after it; a killed process does nothing more; a
    subshell starts with the command traps reset. *)
-Theorem trap_runs_once_per_delivery_at_boundary : forall tbl bf main trace dead,
+(* Proved for the lenient monitor ([strict = false], see ScriptSpec.v).  The
+   full statement, with [monitor true], is FALSE of the faithful model: see
+   trap_runs_once_per_delivery_at_boundary_refuted. *)
+Theorem trap_runs_once_per_delivery_at_boundary_partial : forall tbl bf main trace dead,
   script_ok tbl main = true ->
   run_script tbl bf main = Some (trace, dead) ->
   monitor false tbl trace dead = None.
 Proof. exact script_monitor_sound_thm. Qed.
+
+(* USR1's action delivers USR2 and then sets another command for USR2: neither
+   the old nor the new action of USR2 ever runs (in the model as in yash-rs);
+   the strict monitor reports the next command as running while a delivery is
+   outstanding *)
+Theorem trap_runs_once_per_delivery_at_boundary_refuted : exists tbl bf main trace,
+  script_ok tbl main = true /\
+  run_script tbl bf main = Some (trace, false) /\
+  monitor true tbl trace false = Some R_LATE /\
+  monitor false tbl trace false = None.
+Proof. exists refute_tbl, 8%nat, refute_main, refute_trace. exact refute_script. Qed.
+
+(* The strict monitor (as evaluated at run time) accepts every trace of the
+   model in which no `trap` gives a new command to a signal with a delivery
+   outstanding (the class of the known finding C11-retrap-pending). *)
+Theorem trap_runs_once_per_delivery_at_boundary_outside_known_finding :
+  forall tbl bf main trace dead,
+  script_ok tbl main = true ->
+  run_script tbl bf main = Some (trace, dead) ->
+  trace_retrap_free tbl trace = true ->
+  monitor true tbl trace dead = None.
+Proof. exact script_monitor_strict_thm. Qed.
 
 Example trap_runs_nonvacuous :
   script_ok ex_tbl ex_main = true /\
@@ -201,5 +263,9 @@ Print Assumptions pending_set_only_by_delivery.
 Print Assumptions pending_set_by_delivery.
 Print Assumptions pending_cleared_once.
 Print Assumptions pending_cleared_only_by.
-Print Assumptions oracle_sound.
-Print Assumptions trap_runs_once_per_delivery_at_boundary.
+Print Assumptions oracle_sound_partial.
+Print Assumptions oracle_sound_refuted.
+Print Assumptions oracle_sound_outside_known_finding.
+Print Assumptions trap_runs_once_per_delivery_at_boundary_outside_known_finding.
+Print Assumptions trap_runs_once_per_delivery_at_boundary_partial.
+Print Assumptions trap_runs_once_per_delivery_at_boundary_refuted.
